@@ -3,3 +3,5 @@ pub mod c02;
 pub mod c07;
 pub mod c08;
 pub mod common;
+pub mod store;
+pub mod c18;
